@@ -19,15 +19,21 @@
 package main
 
 import (
+	"encoding/json"
 	"fmt"
 	"os"
+	"regexp"
+	"sort"
 	"strconv"
 	"strings"
+	"time"
 
 	"google.golang.org/protobuf/encoding/protojson"
 	"google.golang.org/protobuf/proto"
 
 	"istio.io/istio/pilot/pkg/model"
+	"istio.io/istio/pkg/config/schema/collections"
+	"istio.io/istio/pkg/config/schema/kind"
 	"verifharness/internal/quiet"
 	"verifharness/internal/wire"
 )
@@ -62,6 +68,8 @@ func main() {
 			sub = os.Args[5]
 		}
 		dumpSnapshot(os.Args[3], os.Args[4], sub)
+	case "shrinkb":
+		shrinkBatch(os.Args[3], os.Args[4], os.Args[5])
 	case "shrink":
 		class := ""
 		if len(os.Args) > 5 {
@@ -85,31 +93,80 @@ type lineOut struct {
 	snap []string
 }
 
-// verdictClass is the part of a verdict that identifies the kind of failure (used by the shrinker
-// and for fingerprints): `bad <clause>`, with the API's reasons for api-valid; `crash <where> <msg>`.
-func verdictClass(impl string) string {
-	v, info, _ := strings.Cut(impl, " | ")
+// verdictClasses lists the kinds of failure of one push line (used by the shrinker and for fingerprints): one
+// `bad <clause>` per violated clause - for api-valid one `bad api-valid <reason>` per distinct reason of the API -,
+// or the `crash <where> <msg>` / `timeout <where>` token.  impl line = `<first verdict> | <info> || <v1> || <v2> ...`.
+func verdictClasses(impl string) []string {
+	head, rest, _ := strings.Cut(impl, " || ")
+	v, info, _ := strings.Cut(head, " | ")
 	f := strings.Fields(v)
 	if len(f) == 0 || f[0] == "ok" {
-		return ""
+		return nil
 	}
-	switch f[0] {
-	case "bad":
-		if len(f) > 1 && f[1] == "api-valid" {
+	if f[0] == "crash" || f[0] == "timeout" {
+		return []string{v}
+	}
+	all := []string{v}
+	if rest != "" {
+		all = strings.Split(rest, " || ")
+	}
+	var out []string
+	for _, a := range all {
+		g := strings.Fields(a)
+		if len(g) < 2 || g[0] != "bad" {
+			continue
+		}
+		if g[1] == "api-valid" {
 			for _, t := range strings.Fields(info) {
 				if strings.HasPrefix(t, "pgv=") {
-					first, _, _ := strings.Cut(strings.TrimPrefix(t, "pgv="), ",")
-					return "bad api-valid " + first
+					for _, r := range strings.Split(strings.TrimPrefix(t, "pgv="), ",") {
+						out = append(out, "bad api-valid "+r)
+					}
 				}
 			}
+			continue
 		}
-		if len(f) > 1 {
-			return "bad " + f[1]
-		}
-	case "crash", "timeout":
-		return v
+		out = append(out, "bad "+g[1])
+	}
+	return out
+}
+
+// verdictClass = the first class (oracle mode).
+func verdictClass(impl string) string {
+	if c := verdictClasses(impl); len(c) > 0 {
+		return c[0]
 	}
 	return ""
+}
+
+func hasClass(impl, class string) bool {
+	for _, c := range verdictClasses(impl) {
+		if c == class {
+			return true
+		}
+	}
+	return false
+}
+
+// judge renders the verdict of one snapshot: the impl line and the Lean monitor's input line.
+func judge(sn *snapshot) lineOut {
+	invalid, reasons := sn.validateAll()
+	all := sn.wellFormedAll(invalid)
+	verdict := "ok"
+	if len(all) > 0 {
+		verdict = all[0]
+	}
+	pg := "ok"
+	if len(reasons) > 0 {
+		pg = strings.Join(reasons, ",")
+	}
+	info := fmt.Sprintf("pgv=%s L=%d R=%d C=%d E=%d unk=rds:%d/%d,eds:%d/%d any-skipped=%d", pg, len(sn.listeners), len(sn.routes), len(sn.clusters),
+		len(sn.endpoints), sn.unkRdsAnswered, sn.unkRds, sn.unkEdsAnswered, sn.unkEds, sn.anySkipped)
+	impl := verdict + " | " + info
+	if len(all) > 0 {
+		impl += " || " + strings.Join(all, " || ")
+	}
+	return lineOut{impl, append([]string{"snap"}, sn.reduce(invalid)...)}
 }
 
 // runCase executes one case (first line = `case ...`) on the real code: one lineOut per input line.
@@ -179,15 +236,44 @@ func runCase(lines [][]string) []lineOut {
 				out = append(out, lineOut{fail + " | -", skip})
 				continue
 			}
-			invalid, reasons := sn.validateAll()
-			verdict := sn.wellFormed(invalid)
-			pg := "ok"
-			if len(reasons) > 0 {
-				pg = strings.Join(reasons, ",")
+			out = append(out, judge(sn))
+		case "dpush":
+			// dpush <type> <ns> <labels> <ips> <meta> (<Kind> <name> <namespace>)+: the full snapshot, then an incremental
+			// push for one config key merged into it
+			if w == nil && initFail == "" {
+				w, initFail = buildWorld(mesh)
+				quiet.Silence()
 			}
-			info := fmt.Sprintf("pgv=%s L=%d R=%d C=%d E=%d unk=rds:%d/%d,eds:%d/%d", pg, len(sn.listeners), len(sn.routes), len(sn.clusters),
-				len(sn.endpoints), sn.unkRdsAnswered, sn.unkRds, sn.unkEdsAnswered, sn.unkEds)
-			out = append(out, lineOut{verdict + " | " + info, append([]string{"snap"}, sn.reduce(invalid)...)})
+			if initFail != "" {
+				out = append(out, lineOut{initFail + " | -", skip})
+				continue
+			}
+			if len(f) < 9 {
+				out = append(out, lineOut{"bad-op", skip})
+				continue
+			}
+			p := parsePush(f[:6])
+			var (
+				sn   *snapshot
+				px   *model.Proxy
+				fail string
+			)
+			fail = guarded("setup", 20e9, func() { px = w.proxy(p) })
+			if fail == "" {
+				sn, fail = w.generate(px)
+			}
+			if fail == "" {
+				var keys []model.ConfigKey
+				for k := 6; k+2 < len(f); k += 3 {
+					keys = append(keys, model.ConfigKey{Kind: kind.FromString(f[k]), Name: wire.Dec(f[k+1]), Namespace: wire.Dec(f[k+2])})
+				}
+				sn, fail = w.generateIncremental(px, sn, keys...)
+			}
+			if fail != "" {
+				out = append(out, lineOut{fail + " | -", skip})
+				continue
+			}
+			out = append(out, judge(sn))
 		default:
 			out = append(out, lineOut{"bad-op", skip})
 		}
@@ -239,43 +325,32 @@ func execSnapshot(opsPath, outPath string, oracle bool) {
 	}
 }
 
-// shrinkSnapshot delta-debugs one failing case in-process: the smallest set of lines (objects,
-// endpoints, pushes) on which some push still fails with the same verdict class.
-//
-//	c14 shrink snapshot <ops-in (one case)> <ops-out> [class]
-func shrinkSnapshot(opsPath, outPath, class string) {
-	lines := wire.ReadLines(opsPath)
-	if len(lines) == 0 {
-		os.Exit(2)
-	}
+// shrinkOne delta-debugs one failing case in-process: the smallest set of lines (objects, endpoints, pushes) on which
+// some push still fails with the given verdict class; with deep, then the smallest sub-objects (elements of the arrays
+// inside the remaining Gateway / ServiceEntry / VirtualService / Sidecar specs: servers, hosts, ports, routes, matches)
+// under the constraint that every object keeps its admission verdict. ok=false: the case does not show the class here.
+func shrinkOne(lines [][]string, class string, deep bool, deadline time.Time) (res [][]string, ok bool) {
 	head, body := lines[0], lines[1:]
-	if class == "" {
-		for _, r := range runCase(lines) {
-			if cl := verdictClass(r.impl); cl != "" {
-				class = cl
-				break
-			}
-		}
-	}
-	if class == "" {
-		fmt.Println("no-failure")
-		os.Exit(1)
-	}
+	evals := 0
 	fails := func(b [][]string) bool {
+		evals++
 		for _, r := range runCase(append([][]string{head}, b...)) {
-			if verdictClass(r.impl) == class {
+			if hasClass(r.impl, class) {
 				return true
 			}
 		}
 		return false
 	}
+	if !fails(body) {
+		return lines, false
+	}
 	chunk := len(body) / 2
 	if chunk < 1 {
 		chunk = 1
 	}
-	for chunk >= 1 {
+	for chunk >= 1 && time.Now().Before(deadline) {
 		progressed := false
-		for i := 0; i < len(body); {
+		for i := 0; i < len(body) && time.Now().Before(deadline); {
 			end := i + chunk
 			if end > len(body) {
 				end = len(body)
@@ -296,13 +371,253 @@ func shrinkSnapshot(opsPath, outPath, class string) {
 			chunk /= 2
 		}
 	}
+	// an incremental push is kept only if the failure needs it: try the plain full push of the same proxy instead
+	for i := range body {
+		if body[i][0] == "dpush" && len(body[i]) >= 6 && time.Now().Before(deadline) {
+			cand := append([][]string{}, body...)
+			cand[i] = append([]string{"push"}, body[i][1:6]...)
+			if fails(cand) {
+				body = cand
+			}
+		}
+	}
+	if deep {
+		// removing sub-objects can make whole lines removable (a Gateway whose only needed server went away keeps
+		// one irrelevant server: an empty server list would change its admission verdict) and vice versa: alternate
+		// until neither makes progress
+		flat := func(b [][]string) string {
+			var sb strings.Builder
+			for _, l := range b {
+				sb.WriteString(strings.Join(l, " "))
+				sb.WriteByte('\n')
+			}
+			return sb.String()
+		}
+		for time.Now().Before(deadline) {
+			before := flat(body)
+			body = shrinkInside(body, fails, deadline)
+			for i := len(body) - 1; i >= 0 && time.Now().Before(deadline); i-- {
+				cand := append(append([][]string{}, body[:i]...), body[i+1:]...)
+				if fails(cand) {
+					body = cand
+				}
+			}
+			if flat(body) == before {
+				break
+			}
+		}
+	}
+	return append([][]string{head}, body...), time.Now().Before(deadline)
+}
+
+func admission(c cfgDesc) string {
+	cc, err := c.toConfig()
+	if err != nil {
+		return "undecodable"
+	}
+	if msg := validateCfg(cc); msg != "" {
+		if msg == "invalid" {
+			// validation's own complaint, digits blanked (indices and sizes move when elements are removed)
+			if sch, ok := collections.PilotGatewayAPI().FindByGroupVersionKind(cc.GroupVersionKind); ok {
+				if _, err := sch.ValidateConfig(cc); err != nil {
+					msg = digits.ReplaceAllString(err.Error(), "N")
+				}
+			}
+		}
+		return "rejected: " + msg
+	}
+	return "admitted"
+}
+
+var digits = regexp.MustCompile(`[0-9]+`)
+
+// shrinkInside removes array elements inside the specs of the remaining config objects, one at a time, last first,
+// as long as the failure persists and the object's admission verdict stays what it was (or turns from rejected to admitted).
+func shrinkInside(body [][]string, fails func([][]string) bool, deadline time.Time) [][]string {
+	budget := 160
+	for li := range body {
+		if body[li][0] != "cfg" {
+			continue
+		}
+		switch body[li][1] {
+		case "Gateway", "ServiceEntry", "VirtualService", "Sidecar", "DestinationRule":
+		default:
+			continue
+		}
+		c := parseCfg(body[li])
+		was := admission(c)
+		var spec any
+		if json.Unmarshal([]byte(c.JSON), &spec) != nil {
+			continue
+		}
+		for progress := true; progress && budget > 0 && time.Now().Before(deadline); {
+			progress = false
+			for _, path := range arrayPaths(spec, nil) {
+				arr := getPath(spec, path).([]any)
+				for idx := len(arr) - 1; idx >= 0 && budget > 0; idx-- {
+					cand := deleteAt(spec, path, idx)
+					b, err := json.Marshal(cand)
+					if err != nil {
+						continue
+					}
+					cc := c
+					cc.JSON = string(b)
+					// the admission verdict stays - for a rejected object: validation's complaint stays literally the same,
+					// so shrinking never adds damage beyond the recorded mutation -, or a rejected object becomes an admitted
+					// one (the damage is not needed for the failure: the minimal case is then inside admission, and the
+					// object loses its mutation tag)
+					if now := admission(cc); now != was {
+						if now != "admitted" {
+							continue
+						}
+						cc.Muts = nil
+					}
+					nb := append([][]string{}, body...)
+					nb[li] = cc.line()
+					budget--
+					if fails(nb) {
+						spec, c, body = cand, cc, nb
+						was = admission(cc)
+						progress = true
+						break
+					}
+				}
+				if progress {
+					break
+				}
+			}
+		}
+	}
+	return body
+}
+
+// arrayPaths lists the paths (keys / indices) of all arrays of more than zero elements inside a JSON value, outermost first.
+func arrayPaths(v any, at []any) [][]any {
+	var out [][]any
+	switch x := v.(type) {
+	case []any:
+		if len(x) > 0 {
+			out = append(out, append([]any{}, at...))
+		}
+		for i, e := range x {
+			out = append(out, arrayPaths(e, append(append([]any{}, at...), i))...)
+		}
+	case map[string]any:
+		keys := make([]string, 0, len(x))
+		for k := range x {
+			keys = append(keys, k)
+		}
+		sort.Strings(keys)
+		for _, k := range keys {
+			out = append(out, arrayPaths(x[k], append(append([]any{}, at...), k))...)
+		}
+	}
+	return out
+}
+
+func getPath(v any, path []any) any {
+	for _, p := range path {
+		switch k := p.(type) {
+		case int:
+			v = v.([]any)[k]
+		case string:
+			v = v.(map[string]any)[k]
+		}
+	}
+	return v
+}
+
+// deleteAt returns a deep copy of v with element idx of the array at path removed.
+func deleteAt(v any, path []any, idx int) any {
+	if len(path) == 0 {
+		arr := v.([]any)
+		out := make([]any, 0, len(arr)-1)
+		for i, e := range arr {
+			if i != idx {
+				out = append(out, e)
+			}
+		}
+		return out
+	}
+	switch x := v.(type) {
+	case []any:
+		out := append([]any{}, x...)
+		k := path[0].(int)
+		out[k] = deleteAt(x[k], path[1:], idx)
+		return out
+	case map[string]any:
+		out := make(map[string]any, len(x))
+		for k, e := range x {
+			out[k] = e
+		}
+		k := path[0].(string)
+		out[k] = deleteAt(x[k], path[1:], idx)
+		return out
+	}
+	return v
+}
+
+// shrinkSnapshot shrinks one case:  c14 shrink snapshot <ops-in (one case)> <ops-out> [class]
+func shrinkSnapshot(opsPath, outPath, class string) {
+	lines := wire.ReadLines(opsPath)
+	if len(lines) == 0 {
+		os.Exit(2)
+	}
+	if class == "" {
+		for _, r := range runCase(lines) {
+			if cl := verdictClass(r.impl); cl != "" {
+				class = cl
+				break
+			}
+		}
+	}
+	if class == "" {
+		fmt.Println("no-failure")
+		os.Exit(1)
+	}
+	res, ok := shrinkOne(lines, class, true, time.Now().Add(120*time.Second))
 	o := wire.Create(outPath)
-	o.Line(head...)
-	for _, b := range body {
+	for _, b := range res {
 		o.Line(b...)
 	}
 	o.Close()
+	if !ok {
+		fmt.Println("not-shrunk " + class)
+		os.Exit(1)
+	}
 	fmt.Println("class " + class)
+}
+
+// shrinkBatch shrinks many (case, class) pairs in one process:
+//
+//	c14 shrinkb snapshot <ops-in (cases)> <ops-out> <jobs>      jobs: one line per case `<deep 0/1> <class...>`
+//
+// <ops-out> gets the shrunk cases in order; <ops-out>.status one line per case: `shrunk` or `failed` (the case did not
+// show the class in this process, or the time ran out: the case is written back unshrunk).
+func shrinkBatch(opsPath, outPath, jobsPath string) {
+	cases := splitCases(wire.ReadLines(opsPath))
+	jobs := wire.ReadLines(jobsPath)
+	o := wire.Create(outPath)
+	st := wire.Create(outPath + ".status")
+	defer o.Close()
+	defer st.Close()
+	for i, c := range cases {
+		if i >= len(jobs) || len(jobs[i]) < 2 {
+			break
+		}
+		class := strings.Join(jobs[i][1:], " ")
+		res, ok := shrinkOne(c, class, jobs[i][0] == "1", time.Now().Add(90*time.Second))
+		for _, b := range res {
+			o.Line(b...)
+		}
+		if ok {
+			st.Line("shrunk")
+		} else {
+			st.Line("failed")
+		}
+		o.Flush()
+		st.Flush()
+	}
 }
 
 // dumpSnapshot prints the route configurations / listeners / clusters of every push of one case
